@@ -121,7 +121,7 @@ func VerifH_chunkreader_spans() {
 	vrt.Assert(err == nil, "NewReader")
 	cr, err := NewChunkReader(r, chunks)
 	vrt.Assert(err == nil, "NewChunkReader")
-	bufn := []int{1, 3, bgzf.BlockSize + 2}[vrt.Choice("buf", 3)]
+	bufn := []int{1, 2, 3, bgzf.BlockSize + 2}[vrt.Choice("buf", 4)]
 	var got []byte
 	var rerr error
 	for calls := 0; calls < 2*len(data)+4*K+4; calls++ {
